@@ -329,10 +329,12 @@ func withCount(p int, b []byte, m tgen.Mark, n int64) ([]byte, bool) {
 				hdr = append([]byte{0xF0 | t}, uleb(uint64(n))...)
 			}
 		case "map":
-			kv := byte(0x55)
-			if m.N > 0 {
-				kv = old[len(old)-1]
+			if m.N == 0 {
+				// a compact empty map is the single byte 0 and carries no key/value
+				// types: there is no header to keep consistent with the target's types
+				return nil, false
 			}
+			kv := old[len(old)-1]
 			if n == 0 {
 				hdr = []byte{0}
 			} else {
@@ -648,7 +650,7 @@ func (e *engine) target() {
 			}
 		case "field":
 			old := valid[m.Off]
-			for d := 1; d <= 3; d++ {
+			for d := 1; d <= 2; d++ {
 				typ := byte((int(old&0x0f) + d*5 + mi) % 16)
 				in := withField(c.P, valid, m, typ, 0, false)
 				mut := fmt.Sprintf("type=%d", typ)
@@ -657,7 +659,7 @@ func (e *engine) target() {
 					return nil
 				}})
 			}
-			for _, id := range []int{m.N + 64, m.N + 1, 0, -1, 32767, m.N + 4096} {
+			for _, id := range []int{m.N + 64, []int{0, -1, m.N + 1}[mi%3], []int{32767, m.N + 4096}[mi%2]} {
 				if id > 32767 {
 					continue
 				}
@@ -1123,7 +1125,7 @@ func TestDecode(t *testing.T) {
 	defer stopWorker()
 	known := activeKnown()
 	o := &tgen.Opts{Small: true, EnumI32Only: true, NoWideIDs: evid.KnownActive(classWideIDs)}
-	evid.Check(t, "Decode", 2500, func(rt *rapid.T) {
+	evid.Check(t, "Decode", 900, func(rt *rapid.T) {
 		before := o.Avoided["id-range-beyond-bitmap"]
 		c := genCase(rt, o)
 		for i := before; i < o.Avoided["id-range-beyond-bitmap"]; i++ {
